@@ -1447,6 +1447,124 @@ _mk_stat('ll_multinom_2d_open', 'Inference.ll_multinom', (5, 4),
 _mk_stat('ll_data_view_2d_open', 'Inference.ll', (5, 4), lambda fs: float(__import__('dadi').Inference.ll(fs_fix((5, 4), 31), fs)), corners=False)
 
 
+# ---- round 7 --------------------------------------------------------------------------------------------------------
+# (a) data dictionaries over several chromosomes / scaffolds (names whose set order differs between hash seeds):
+#     the fragments and the seeded bootstraps built from them are LISTS - their order is part of the value
+CHR_NAMES = ['chr1', 'chr2', 'chrX', 'scaffold_7', 'chr10']
+
+
+def data_dict_chr_fix():
+    base = data_dict_fix(2)
+    pos = [(0, 120), (0, 2600), (1, 340), (2, 90), (2, 1800), (3, 700), (4, 50), (4, 1500), (1, 2100)]
+    dd = {}
+    for k, (c, p) in enumerate(pos):
+        dd['%s_%d' % (CHR_NAMES[c], p)] = base['snp%d' % k]
+    dd['chr2_340.b'] = base['snp3']          # a recurrent mutation at the same site (additional info after the dot)
+    return dd
+
+
+@reg('fragment_data_dict_5chr', 'Misc.fragment_data_dict')
+def _frag(lay, xl):
+    import dadi
+    return {'dd': data_dict_chr_fix()}, (lambda a: dadi.Misc.fragment_data_dict(a['dd'], 1000))
+
+
+@reg('bootstraps_from_dd_chunks_5chr', 'Misc.bootstraps_from_dd_chunks')
+def _boots(lay, xl):
+    import dadi
+
+    def run(a):
+        import random
+        frags = dadi.Misc.fragment_data_dict(a['dd'], 1000)
+        random.seed(17)          # random by contract: the call is (seed; bootstraps_from_dd_chunks)
+        return dadi.Misc.bootstraps_from_dd_chunks(frags, 3, a['pop_ids'], a['projections'])
+    return {'dd': data_dict_chr_fix(), 'pop_ids': ['A', 'B'], 'projections': [4, 3]}, run
+
+
+def vcf_chr_fix():
+    """A small VCF (two populations of two diploid individuals, ten biallelic SNPs on five chromosomes / scaffolds) and its
+    population file, written to a scratch directory; returns (vcf path, popinfo path, directory)."""
+    import tempfile
+    d = tempfile.mkdtemp(prefix='c20-vcf-', dir='/var/tmp')
+    rows = [('chr1', 120, 'A', 'G', 'A', ['0/1', '0/0', '1/1', '0/1']), ('chr1', 2600, 'C', 'T', 'C', ['0/0', '0/1', '0/1', '0/0']),
+            ('chr2', 340, 'G', 'A', 'G', ['1/1', '0/1', '0/0', '0/1']), ('chr2', 2100, 'T', 'C', 'T', ['0/1', '0/1', '0/0', '1/1']),
+            ('chrX', 90, 'A', 'C', 'A', ['0/0', '1/1', '0/1', '0/0']), ('chrX', 1800, 'G', 'T', 'G', ['0/1', '0/0', '0/0', '0/1']),
+            ('scaffold_7', 700, 'C', 'A', 'C', ['1/1', '0/1', '0/1', '0/1']), ('scaffold_7', 1900, 'T', 'G', 'T', ['0/0', '0/1', '1/1', '0/0']),
+            ('chr10', 50, 'A', 'T', 'A', ['0/1', '1/1', '0/0', '0/1']), ('chr10', 1500, 'G', 'C', 'G', ['0/0', '0/1', '0/1', '1/1'])]
+    names = ['a1', 'a2', 'b1', 'b2']
+    vcf = os.path.join(d, 'five.vcf')
+    with open(vcf, 'w') as f:
+        f.write('##fileformat=VCFv4.2\n')
+        f.write('\t'.join(['#CHROM', 'POS', 'ID', 'REF', 'ALT', 'QUAL', 'FILTER', 'INFO', 'FORMAT'] + names) + '\n')
+        for c, p, ref, alt, aa, gts in rows:
+            f.write('\t'.join([c, str(p), '.', ref, alt, '.', 'PASS', 'AA=' + aa, 'GT'] + gts) + '\n')
+    pop = os.path.join(d, 'five.popinfo.txt')
+    with open(pop, 'w') as f:
+        for n in names:
+            f.write('%s\t%s\n' % (n, 'A' if n[0] == 'a' else 'B'))
+    return vcf, pop, d
+
+
+@reg('make_data_dict_vcf_5chr', 'Misc.make_data_dict_vcf')
+def _mdv(lay, xl):
+    import dadi
+
+    def run(a):
+        import shutil
+        vcf, pop, d = vcf_chr_fix()
+        try:
+            dd = dadi.Misc.make_data_dict_vcf(vcf, pop)
+            return [[k, dd[k]] for k in dd]          # the order of the entries as the caller iterates over them
+        finally:
+            shutil.rmtree(d, ignore_errors=True)
+    return {}, run
+
+
+@reg('bootstraps_subsample_vcf_5chr', 'Misc.bootstraps_subsample_vcf')
+def _bsv(lay, xl):
+    import dadi
+    np = _np()
+
+    def run(a):
+        import shutil, random
+        vcf, pop, d = vcf_chr_fix()
+        try:
+            random.seed(19)        # random by contract: the call is (seed both generators; bootstraps_subsample_vcf)
+            np.random.seed(19)
+            return dadi.Misc.bootstraps_subsample_vcf(vcf, pop, a['subsample'], 3, 1000, a['pop_ids'])
+        finally:
+            shutil.rmtree(d, ignore_errors=True)
+    return {'subsample': {'A': 1, 'B': 1}, 'pop_ids': ['A', 'B']}, run
+
+
+# (b) boundary VALUES of array arguments that a call clips or sanitises: inbreeding coefficients exactly 1 and 0, ploidies
+#     and admixture proportions 0 / 1, all passed as ndarrays (the caller's arrays)
+def _mk_inb_boundary(name, d, ns, Fs):
+    @reg(name, 'Spectrum.from_phi_inbreeding')
+    def mk(lay, xl):
+        import dadi
+        np = _np()
+        xx = grid('A', 7)
+        return ({'phi': phi_fix(d, 7), 'xxs': tuple(xx.copy() for _ in range(d)), 'ns': list(ns), 'Fs': np.array(Fs, dtype=float),
+                 'ploidys': np.array([2] * d)},
+                (lambda a: dadi.Spectrum.from_phi_inbreeding(a['phi'], a['ns'], a['xxs'], a['Fs'], a['ploidys'])))
+
+
+_mk_inb_boundary('from_phi_inb_1d_4_F1', 1, (4,), (1.0,))
+_mk_inb_boundary('from_phi_inb_2d_42_F1_03', 2, (4, 2), (1.0, 0.3))
+_mk_inb_boundary('from_phi_inb_1d_4_F0', 1, (4,), (0.0,))
+_mk_inb_boundary('from_phi_inb_2d_42_F00', 2, (4, 2), (0.0, 0.0))
+
+
+@reg('from_phi_2d_admix_props_array01', 'Spectrum.from_phi')
+def _fpa01(lay, xl):
+    import dadi
+    np = _np()
+    xx = grid('A', 8)
+    return ({'phi': phi_fix(2, 8), 'ns': np.array([4, 3]), 'xxs': (xx, xx.copy()), 'admix_props': np.array([[1.0, 0.0], [0.0, 1.0]])},
+            (lambda a: dadi.Spectrum.from_phi(a['phi'], a['ns'], a['xxs'], admix_props=a['admix_props'])))
+
+
 @reg('from_phi_inb_2d_42_arrays', 'Spectrum.from_phi_inbreeding')
 def _fpia(lay, xl):
     import dadi
@@ -1620,7 +1738,7 @@ def _bb_tag(a, b):
     """(alpha, beta) of a BetaBinomln key -> the tag Memo.tla uses; computed with dadi's own float formulas."""
     import numpy as np
     if not _BB_TAGS:
-        for gname, (gk, n), F, Fs in (('A7', ('A', 7), 0.3, '3/10'),):
+        for gname, (gk, n), F, Fs in (('A7', ('A', 7), 0.3, '3/10'), ('A7', ('A', 7), 1.0, '1m')):      # ('1m': F = 1, used as 1 - 1e-10)
             xx = grid(gk, n)
             Fx = np.minimum([F], 1 - 1e-10)[0]
             al = xx * ((1.0 - Fx) / Fx)
